@@ -37,6 +37,11 @@ where
             let src = self.inner.fill_buf().await?;
 
             if src.is_empty() {
+                // The stream ended before the declared length of the header text (`l_text`).
+                if self.inner.get_ref().limit() > 0 {
+                    return Err(io::Error::from(io::ErrorKind::UnexpectedEof));
+                }
+
                 return Ok(n);
             }
 
